@@ -4,7 +4,8 @@ package c07
 // and identified with what the model assumes by the theorems C07_*_is_code:
 //
 //   go/ast over configuration/cfgbackend/consulsource.go (GetNextUInt32),
-//               apricot/local/service.go (NewRunNumber), core/environment/environment.go;
+//               apricot/local/service.go (NewRunNumber), core/environment/environment.go,
+//               apricot/remote/*.go (the gRPC hop: handler RpcServer.NewRunNumber and the client);
 //   one EVALUATION of the linked GetNextUInt32 with the counter at 2^32-1.
 
 import (
@@ -84,6 +85,9 @@ type facts struct {
 	serviceDelegates, startCancelledOnError, wrapsAtMax, wrapEvaluated                  bool
 	// the consumer: before_event of core/environment/environment.go (startFacts)
 	startReachedAfterNegHooksOnly, startCallUnconditional, startNumberAdopted, onlyStartSetsNumber bool
+	// the gRPC hop of a remote apricot (hopFacts)
+	rpcServerSingleCall, rpcServerForwardsError, rpcServerForwardsNumber bool
+	rpcClientSingleCall, rpcClientReturnsError, rpcClientReturnsNumber   bool
 }
 
 func consulFacts(repo string, ft *facts) error {
@@ -605,6 +609,221 @@ func startFacts(repo string, ft *facts) error {
 	return nil
 }
 
+// ---- the gRPC hop of a remote apricot: apricot/remote ---------------------------------------------
+//
+// A "forwarding function" F (the handler `func (m *RpcServer) NewRunNumber(ctx, req) (*Resp, error)`
+// and the client `func (c *<Client>) NewRunNumber() (uint32, error)` — the method of that name with
+// NO parameters, wherever in apricot/remote/*.go it lives) is matched against this shape, L = the
+// top-level statement list of F:
+//
+//	singleCall      F contains exactly one call whose function ends in `.NewRunNumber`; it is the
+//	                right-hand side of a two-value assignment `x, e := / = <call>` that is a statement
+//	                OF L (not under if/for/switch/select, not in a function literal: no loop, no
+//	                retry, no second attempt), F has no `defer`, no `go`, no function literal and
+//	                no label/goto
+//	forwardsError   e (not `_`) is never assigned again, incremented or address-taken in F; every
+//	                `return` of F that comes after the call either has the identifier e as its LAST
+//	                result, or comes — in L — after an L-statement `if e != nil { … return …, e }`
+//	                (no init, no else, the block's last statement is that return): on no path does a
+//	                non-nil e turn into a nil error or into another error. Returns are explicit
+//	                (two results each).
+//	forwardsNumber  x is never assigned again, incremented or address-taken; the LAST statement of L
+//	                is a return whose first result carries x and nothing else that computes: for the
+//	                handler a `&<pkg>.RunNumberResponse{RunNumber: x}` literal, for the client
+//	                `x.GetRunNumber()` or `x.RunNumber`
+//	(client only) returnsError additionally demands that the error return hands out NO number: the
+//	                first result of every return whose last result is e is the literal 0 (or, with
+//	                named results, … — not accepted: returns must be explicit)
+type fwdFacts struct{ single, fwdErr, fwdNum, zeroOnErr bool }
+
+func forwardingFacts(fd *ast.FuncDecl, numberOf func(first ast.Expr, x string) bool) fwdFacts {
+	var out fwdFacts
+	if fd == nil || fd.Body == nil || fd.Type.Results == nil {
+		return out
+	}
+	L := fd.Body.List
+	// no defer / go / function literal / label / goto anywhere
+	clean := true
+	nCalls := 0
+	ast.Inspect(fd.Body, func(n ast.Node) bool {
+		switch v := n.(type) {
+		case *ast.DeferStmt, *ast.GoStmt, *ast.FuncLit, *ast.LabeledStmt:
+			clean = false
+		case *ast.BranchStmt:
+			if v.Tok == token.GOTO {
+				clean = false
+			}
+		case *ast.CallExpr:
+			if strings.HasSuffix(es(v.Fun), ".NewRunNumber") {
+				nCalls++
+			}
+		}
+		return true
+	})
+	at, x, e := -1, "", ""
+	for i, s := range L {
+		as, ok := s.(*ast.AssignStmt)
+		if !ok || len(as.Lhs) != 2 || len(as.Rhs) != 1 || (as.Tok != token.DEFINE && as.Tok != token.ASSIGN) {
+			continue
+		}
+		if c, fun := callOf(as.Rhs[0]); c != nil && strings.HasSuffix(fun, ".NewRunNumber") {
+			xi, ok1 := as.Lhs[0].(*ast.Ident)
+			ei, ok2 := as.Lhs[1].(*ast.Ident)
+			if ok1 && ok2 && at < 0 {
+				at, x, e = i, xi.Name, ei.Name
+			}
+		}
+	}
+	out.single = clean && nCalls == 1 && at >= 0
+	if at < 0 || e == "_" || x == "_" {
+		return out
+	}
+	// neither x nor e is touched again
+	touched := map[string]bool{}
+	for i, s := range L {
+		ast.Inspect(s, func(n ast.Node) bool {
+			switch v := n.(type) {
+			case *ast.AssignStmt:
+				if i == at && v == L[at] {
+					return true
+				}
+				for _, l := range v.Lhs {
+					touched[es(l)] = true
+				}
+			case *ast.IncDecStmt:
+				touched[es(v.X)] = true
+			case *ast.UnaryExpr:
+				if v.Op == token.AND {
+					touched[es(v.X)] = true
+				}
+			case *ast.RangeStmt:
+				touched[es(v.Key)] = true
+				touched[es(v.Value)] = true
+			}
+			return true
+		})
+	}
+	// every return after the call
+	guardAt := -1 // index in L of the first `if e != nil { … return …, e }`
+	for i := at + 1; i < len(L); i++ {
+		if ifs, ok := L[i].(*ast.IfStmt); ok && ifs.Init == nil && ifs.Else == nil && es(ifs.Cond) == e+" != nil" && len(ifs.Body.List) > 0 {
+			if r, isR := ifs.Body.List[len(ifs.Body.List)-1].(*ast.ReturnStmt); isR && len(r.Results) == 2 && es(r.Results[1]) == e {
+				guardAt = i
+				break
+			}
+		}
+	}
+	out.fwdErr, out.zeroOnErr = out.single && !touched[e], true
+	for i := at + 1; i < len(L); i++ {
+		ast.Inspect(L[i], func(n ast.Node) bool {
+			r, ok := n.(*ast.ReturnStmt)
+			if !ok {
+				return true
+			}
+			if len(r.Results) != 2 {
+				out.fwdErr = false
+				return true
+			}
+			if es(r.Results[1]) == e {
+				if es(r.Results[0]) != "0" {
+					out.zeroOnErr = false
+				}
+				return true
+			}
+			if !(guardAt >= 0 && i > guardAt) {
+				out.fwdErr = false
+			}
+			return true
+		})
+	}
+	// the number
+	if n := len(L); n > 0 && out.single && !touched[x] {
+		if r, ok := L[n-1].(*ast.ReturnStmt); ok && len(r.Results) == 2 {
+			out.fwdNum = numberOf(r.Results[0], x)
+		}
+	}
+	return out
+}
+
+func hopFacts(repo string, ft *facts) error {
+	files, err := filepath.Glob(repo + "/apricot/remote/*.go")
+	if err != nil {
+		return err
+	}
+	var handler, client *ast.FuncDecl
+	clients := 0
+	for _, fn := range files {
+		if strings.HasSuffix(fn, "_test.go") {
+			continue
+		}
+		f, err := parseFile(fn)
+		if err != nil {
+			return err
+		}
+		for _, d := range f.Decls {
+			fd, ok := d.(*ast.FuncDecl)
+			if !ok || fd.Name.Name != "NewRunNumber" || fd.Body == nil || fd.Recv == nil || len(fd.Recv.List) != 1 {
+				continue
+			}
+			recv := strings.TrimPrefix(types.ExprString(fd.Recv.List[0].Type), "*")
+			nParams := 0
+			if fd.Type.Params != nil {
+				for _, p := range fd.Type.Params.List {
+					nParams += max(len(p.Names), 1)
+				}
+			}
+			switch {
+			case recv == "RpcServer" && nParams == 2:
+				handler = fd
+			case nParams == 0: // configuration.Service's signature: the client
+				client = fd
+				clients++
+			}
+		}
+	}
+	if handler == nil {
+		return fmt.Errorf("RpcServer.NewRunNumber(ctx, req) not found in apricot/remote")
+	}
+	if client == nil || clients != 1 {
+		return fmt.Errorf("%d parameterless NewRunNumber methods in apricot/remote (want exactly one: the client)", clients)
+	}
+	h := forwardingFacts(handler, func(first ast.Expr, x string) bool {
+		u, ok := first.(*ast.UnaryExpr)
+		if !ok || u.Op != token.AND {
+			return false
+		}
+		cl, ok := u.X.(*ast.CompositeLit)
+		if !ok || !strings.HasSuffix(es(cl.Type), ".RunNumberResponse") || len(cl.Elts) != 1 {
+			return false
+		}
+		kv, ok := cl.Elts[0].(*ast.KeyValueExpr)
+		return ok && es(kv.Key) == "RunNumber" && es(kv.Value) == x
+	})
+	// the handler's call goes to the service it fronts: <recv>.service.NewRunNumber()
+	hr := ""
+	if len(handler.Recv.List[0].Names) == 1 {
+		hr = handler.Recv.List[0].Names[0].Name
+	}
+	onService := false
+	ast.Inspect(handler.Body, func(n ast.Node) bool {
+		if c, fun := callOf(asExpr(n)); c != nil && strings.HasSuffix(fun, ".NewRunNumber") {
+			onService = hr != "" && fun == hr+".service.NewRunNumber" && len(c.Args) == 0
+		}
+		return true
+	})
+	ft.rpcServerSingleCall = h.single && onService
+	ft.rpcServerForwardsError = h.fwdErr && onService
+	ft.rpcServerForwardsNumber = h.fwdNum && onService
+	c := forwardingFacts(client, func(first ast.Expr, x string) bool {
+		s := es(first)
+		return s == x+".GetRunNumber()" || s == x+".RunNumber"
+	})
+	ft.rpcClientSingleCall = c.single
+	ft.rpcClientReturnsError = c.fwdErr && c.zeroOnErr
+	ft.rpcClientReturnsNumber = c.fwdNum
+	return nil
+}
+
 // leavesFlow: the statement contains (outside nested function literals) a return, goto, break,
 // continue or a call of panic / os.Exit / runtime.Goexit.
 func leavesFlow(s ast.Stmt) bool {
@@ -689,6 +908,9 @@ func genFacts(repo string) (string, error) {
 	if err := startFacts(repo, &ft); err != nil {
 		problems = append(problems, "before_event: "+err.Error())
 	}
+	if err := hopFacts(repo, &ft); err != nil {
+		problems = append(problems, "apricot/remote: "+err.Error())
+	}
 	if err := evalWrap(&ft); err != nil {
 		problems = append(problems, "evaluation at 2^32-1: "+err.Error())
 	}
@@ -711,6 +933,12 @@ func genFacts(repo string) (string, error) {
 	w("go/ast: `n, err := the.ConfSvc().NewRunNumber()` is a statement OF the START_ACTIVITY branch (not nested under if/switch/loop, no return before it) and the only NewRunNumber call of the callback", "startCallUnconditional", ft.startCallUnconditional)
 	w("go/ast: n is never re-assigned; statements of the branch assign it to env.currentRunNumber, set run_number to FormatUint(uint64(n),10) and publish Ev_RunEvent{RunNumber: n}", "startNumberAdopted", ft.startNumberAdopted)
 	w("go/ast: in package core/environment (tests and verif-tagged hook files aside) that is the only assignment giving .currentRunNumber a value other than the literal 0; no ++/--/&/composite-literal use", "onlyStartSetsNumber", ft.onlyStartSetsNumber)
+	w("go/ast: the handler RpcServer.NewRunNumber (apricot/remote) makes exactly one call, `x, e := m.service.NewRunNumber()`, as a top-level statement (no loop, no second attempt; no defer/go/function literal in the handler)", "rpcServerSingleCall", ft.rpcServerSingleCall)
+	w("go/ast: the handler hands the service's error on UNCHANGED: e is never re-assigned and every return after the call has e as its error result (or follows a top-level `if e != nil { … return …, e }`) — no path answers OK after the backend said no", "rpcServerForwardsError", ft.rpcServerForwardsError)
+	w("go/ast: the handler's last statement returns &…RunNumberResponse{RunNumber: x} with x the (never re-assigned) number the service returned", "rpcServerForwardsNumber", ft.rpcServerForwardsNumber)
+	w("go/ast: the client's NewRunNumber (the one parameterless method of that name in apricot/remote) makes exactly one RPC `resp, e = ….NewRunNumber(…)`, as a top-level statement (no loop, no retry; no defer/go/function literal)", "rpcClientSingleCall", ft.rpcClientSingleCall)
+	w("go/ast: the client hands the RPC's error on unchanged and NO number with it: e is never re-assigned, every return after the call is `return 0, e` or follows the top-level `if e != nil { return 0, e }`", "rpcClientReturnsError", ft.rpcClientReturnsError)
+	w("go/ast: the client's last statement returns resp.GetRunNumber() (or resp.RunNumber) of the never re-assigned response", "rpcClientReturnsNumber", ft.rpcClientReturnsNumber)
 	w("EVALUATED on the linked code: with the counter at 4294967295 GetNextUInt32 returns (0, nil) and writes \"0\"", "wrapsAtMax", ft.wrapsAtMax)
 	w("the evaluation at 2^32-1 ran to completion and gave one of the two expected answers ((0, nil) or an error)", "wrapEvaluated", ft.wrapEvaluated)
 	b.WriteString("end Gen.C07\n")
